@@ -119,8 +119,22 @@ impl Registry {
     /// purposes this functionality isn't needed anyway.
     pub fn register_type(&mut self, ty: &MetaType) -> UntrackedSymbol<TypeId> {
         let (inserted, symbol) = self.intern_type_id(ty.type_id());
+        #[cfg(all(scale_info_verif, feature = "std"))]
+        crate::verif::emit(crate::verif::Event::Intern {
+            type_id: ty.type_id(),
+            inserted,
+            id: symbol.id,
+            table_len_after: self.type_table.elements().len(),
+        });
         if inserted {
             let portable_id = ty.type_info().into_portable(self);
+            #[cfg(all(scale_info_verif, feature = "std"))]
+            crate::verif::emit(crate::verif::Event::DefStore {
+                type_id: ty.type_id(),
+                id: symbol.id,
+                already_present: self.types.contains_key(&symbol),
+                defs_len_before: self.types.len(),
+            });
             self.types.insert(symbol, portable_id);
         }
         symbol
@@ -146,6 +160,26 @@ impl Registry {
         iter.into_iter()
             .map(|i| i.into_portable(self))
             .collect::<Vec<_>>()
+    }
+
+    /// Verification hook: structural invariants of the registry at a quiescent point.
+    #[cfg(all(scale_info_verif, feature = "std"))]
+    pub fn verif_invariants(&self) -> Result<(), crate::prelude::string::String> {
+        use crate::prelude::{format, string::ToString};
+        self.type_table.verif_invariants()?;
+        if self.type_table.elements().len() != self.types.len() {
+            return Err(format!(
+                "{} interned type ids but {} stored definitions",
+                self.type_table.elements().len(),
+                self.types.len()
+            ));
+        }
+        for (i, k) in self.types.keys().enumerate() {
+            if k.id as usize != i {
+                return Err("definition keys are not exactly 0..n".to_string());
+            }
+        }
+        Ok(())
     }
 
     /// Returns an iterator over the types with their keys
